@@ -1167,6 +1167,11 @@ func createNewCredential(constraints *Constraints, src, limitedCred []byte,
 				continue
 			}
 
+			if !constraints.LimitDisclosure.isRequired() {
+				// the template is the whole credential: nothing was removed, positions are the original ones.
+				path.newPath = path.oldPath
+			}
+
 			var val interface{} = true
 
 			if f.Predicate.isRequired() {
